@@ -166,7 +166,15 @@ def source_tie(ctx: Ctx):
                       f"--- expected\n{exp.get(n, (None, '<none>'))[1]}\n--- derived from {repo}\n{term}")
     if a.returncode != 0 and not failed:
         failed.append("srctie:lean:" + txt[-800:])
-    ctx.coverage["source_tie"] = dict(scripts=rows, translator="harness/srcgen.py",
+    st = None
+    if not failed:
+        # is the translator blind? (only meaningful on a tree it can translate): every edit of a fixed list, applied
+        # alone to a scratch copy of the files, must change what it derives
+        a_, d_, blind = srcgen.selftest(repo)
+        st = dict(edits_applied=a_, noticed=d_)
+        if a_ != d_:
+            raise RuntimeError(f"the source translator did not notice {blind}")
+    ctx.coverage["source_tie"] = dict(scripts=rows, translator="harness/srcgen.py", translator_selftest=st,
                                       checker_cmd=f"lake env lean <Gen.x = Expected.x by decide for {names}>")
     return failed
 
